@@ -47,7 +47,7 @@ SEED_B = """seed deck b
 
 m1 13027 1
 m2 8016 1
-imp:n 1 1 1 0 1 1
+imp:n 1 1 2 0 1 2
 """
 
 
@@ -213,6 +213,10 @@ def main():
     chk.cov['traces_validated_against_impl'] = nval
     chk.cov['evaluations'] = nval
     chk.cov['distinct_nontrivial'] = len(good)
+    kinds = {}
+    for r in good:
+        kinds[r['last']] = kinds.get(r['last'], 0) + 1
+    chk.extra['last_rewrite_histogram'] = kinds
     for r in good[:1] + good[len(good) // 2:len(good) // 2 + 2]:
         chk.sample({'rewritten_text': r['text'], 'last_rewrite': r['last'], 'depth': r['depth']})
     chk.extra['rule'] = ('distinct = distinct rewritten texts (every one differs from its seed in at least one line and the '
